@@ -29,6 +29,8 @@ static pthread_cond_t *t_cond;
 static pthread_mutex_t *t_mutex;
 static pthread_t t_tid; static int t_tid_known;
 static int hold_next_signal, holder_parked, holder_release;  /* Z mode */
+static int timeout_hook_armed, timeout_parked, timeout_release;   /* park the timer thread between the time-out of its
+                                                                     timed wait and the re-taking of the mutex */
 
 static int ts_le(const struct timespec *a, const struct timespec *b) {
     if (a->tv_sec == b->tv_sec) return a->tv_nsec <= b->tv_nsec;
@@ -60,7 +62,24 @@ NOASAN static int wait_common(pthread_cond_t *c, pthread_mutex_t *m, const struc
     __real_pthread_cond_signal(&hcv);
     for (;;) {
         struct timespec rt;
-        if (wake_pending || (t_timed && ts_le(&t_deadline, &vnow))) break;
+        if (wake_pending || (t_timed && ts_le(&t_deadline, &vnow))) {
+            if (!wake_pending && timeout_hook_armed) {
+                /* the wait has timed out; POSIX lets any thread take the mutex before the waiter gets it back: the
+                   driver makes its call in exactly that window.  The waiter is no waiter any more: a signal made now
+                   is lost, the wait returns ETIMEDOUT */
+                timeout_hook_armed = 0; t_waiting = 0; timeout_parked = 1; timeout_release = 0;
+                __real_pthread_cond_signal(&hcv);
+                pthread_mutex_unlock(&hm);
+                pthread_mutex_unlock(m);
+                pthread_mutex_lock(&hm);
+                while (!timeout_release) { struct timespec rt2; real_deadline(&rt2, 5); __real_pthread_cond_timedwait(&hcv, &hm, &rt2); }
+                timeout_release = 0; timeout_parked = 0; wake_pending = 0;
+                pthread_mutex_unlock(&hm);
+                pthread_mutex_lock(m);
+                return ETIMEDOUT;
+            }
+            break;
+        }
         pthread_mutex_unlock(&hm);
         real_deadline(&rt, 5);
         __real_pthread_cond_timedwait(c, m, &rt);      /* cancellation point, as in the real call */
